@@ -12,36 +12,16 @@ namespace Oratio
 namespace Net
 open Sat
 
-/-! ### more added clauses -/
-
-theorem cnf_of_sub {α : Asg} {F G : Cnf} (hs : ∀ d ∈ F, d ∈ G) (h : α.cnf G = true) : α.cnf F = true := by
-  simp only [Asg.cnf, List.all_eq_true] at h ⊢
-  exact fun d hd => h d (hs d hd)
-
-theorem TEntails.mono_F {n : Net} {F G : Cnf} {c : Clause} (h : TEntails n F c) (hs : ∀ d ∈ F, d ∈ G) : TEntails n G c :=
-  fun α h0 hG hm => h α h0 (cnf_of_sub hs hG) hm
-
-theorem LraJ.mono {orig orig' : Cnf} {t : Lra} (h : LraJ orig t) (hs : ∀ d ∈ orig, d ∈ orig') : LraJ orig' t :=
-  fun α σr σi h0 ho => h α σr σi h0 (cnf_of_sub hs ho)
-
-theorem ThBase.mono_orig {orig orig' : Cnf} {s : Sat} {l : Lra} {i : Dl Int} {r : Dl IR} (h : ThBase orig s l i r)
-    (hs : ∀ d ∈ orig, d ∈ orig') : ThBase orig' s l i r :=
-  ⟨⟨h.lra.inv, h.lra.vals, h.lra.key, h.lra.vars, h.lra.just.mono hs, h.lra.reasons⟩, h.idl, h.rdl⟩
-
-theorem ThChain.mono_orig {orig orig' : Cnf} (hs : ∀ d ∈ orig, d ∈ orig') :
-    ∀ (fr : List Frame) (s : Sat) (l : Lra) (i : Dl Int) (r : Dl IR), ThChain orig s l i r fr → ThChain orig' s l i r fr
-  | [], s, l, i, r, h => ThBase.mono_orig (orig := orig) h hs
-  | f :: fs, s, l, i, r, h => by
-    obtain ⟨h1, h2, h3, h4, h5, h6, h7⟩ := h
-    exact ⟨h1.mono_orig hs, h2, h3, h4, h5, h6, ThChain.mono_orig hs fs _ _ _ _ h7⟩
-
 /-- adding the clause `c` to the ghost set when the SAT core goes from `n.sat` to `s'` -/
 theorem NetInv.addOrig {n : Net} {orig L : Cnf} {fr : List Frame} (h : NetInv n orig L fr) (c : Clause) (s' : Sat)
     (hs : SInv ((orig ++ L) ++ [c]) (orig ++ [c]) s') (hk : AssignedKeep n.sat s') (hl : s'.trailLim = n.sat.trailLim)
     (hlen : s'.vals.length = n.sat.vals.length) : NetInv { n with sat := s' } (orig ++ [c]) L fr := by
   have hsub : ∀ d ∈ orig, d ∈ orig ++ [c] := fun d hd => List.mem_append_left _ hd
   refine ⟨hs.mono_orig (fun d hd => ?_), fun d hd => (h.lemmas d hd).mono_F hsub,
-    ThInv.assign (n := n) (orig := orig ++ [c]) (ThChain.mono_orig hsub fr _ _ _ _ h.th) s' hk.le,
+    ThInv.assign (n := n) (orig := (orig ++ [c]) ++ L) (h.th.mono_origN (fun d hd => by
+      rcases List.mem_append.1 hd with hd | hd
+      · exact List.mem_append_left _ (List.mem_append_left _ hd)
+      · exact List.mem_append_right _ hd)) s' hk.le,
     FramesLv.keep hk fr h.flv, ?_, ?_⟩
   · rcases List.mem_append.1 hd with hd | hd
     · rcases List.mem_append.1 hd with hd | hd
